@@ -27,6 +27,10 @@ from . import core
 
 
 def run_cases(ctx, mod, shard, sample=None):
+    import warnings
+    import numpy as np
+    _filters0 = list(warnings.filters)
+    _err0 = np.geterr()
     i, n = shard
     mod.setup(ctx)
     deadline = getattr(mod, 'SHARD_SOFT_DEADLINE_S', None)
@@ -39,6 +43,9 @@ def run_cases(ctx, mod, shard, sample=None):
         elif idx % n != i:
             continue
         ctx.current_case = case
+        # every case starts from the same warning filters and NumPy error state (cases set their own: core.settings)
+        warnings.filters[:] = _filters0
+        np.seterr(**_err0)
         tty = bool(((idx * 2654435761) >> 9) & 1)      # half of the cases run with a terminal-like stdout
         ctx.hit('stdout:terminal-like' if tty else 'stdout:captured')
         ctx.case_tty = tty
